@@ -131,6 +131,26 @@ func compare(method, ae string, p, g *kit.Rec) (string, string) {
 	return "", ""
 }
 
+// offersCoding reports whether an Accept-Encoding value lists coding (or *) with a non-zero quality.
+func offersCoding(ae, coding string) bool {
+	for _, part := range strings.Split(ae, ",") {
+		f := strings.Split(part, ";")
+		if n := strings.TrimSpace(f[0]); n != coding && n != "*" {
+			continue
+		}
+		q := 1.0
+		for _, p := range f[1:] {
+			if p = strings.TrimSpace(p); strings.HasPrefix(p, "q=") {
+				fmt.Sscanf(p[2:], "%g", &q)
+			}
+		}
+		if q > 0 {
+			return true
+		}
+	}
+	return false
+}
+
 func main() {
 	rep := kit.NewReport("C18", "exploration",
 		"8 gzip blocks x (probe responses: 5 statuses x Content-Type set/unset x Content-Length right/absent x 5 pre-set Content-Encodings x 3 ETag forms x 8 write/flush patterns; static files with every subset of .gz/.br/.zst siblings) x 10 Accept-Encoding values x 4 paths x GET/HEAD, each served by a gzip site and by the same site without gzip and compared; distinct_nontrivial = outcome classes")
@@ -257,6 +277,17 @@ func main() {
 					if pv1 != nil || pv2 != nil {
 						rep.Violation("C18/panic", fmt.Sprintf("panic escaped: %v / %v", pv1, pv2), wcase{cf, kit.Get(method, sp.path, "g.test:8080", hdr...), "", ""})
 						continue
+					}
+					// static files: the codings named were chosen by the server, so the client must have offered each of them
+					// (checked on both sites: the sibling selection is the file server's, with or without gzip)
+					if sp.probe == "" {
+						for which, r := range map[string]*kit.Rec{"p.test:8080": pr, "g.test:8080": gr} {
+							for _, c := range strings.Split(strings.Join(r.Snap.Values("Content-Encoding"), ","), ",") {
+								if c = strings.TrimSpace(c); c != "" && c != "identity" && !offersCoding(ae, c) {
+									rep.Violation("C18/coding-not-offered-by-the-client/static", fmt.Sprintf("Accept-Encoding %q answered with Content-Encoding %s", ae, c), wcase{cf, kit.Get(method, sp.path, which, hdr...), summary(pr), summary(gr)})
+								}
+							}
+						}
 					}
 					kind, msg := compare(method, ae, pr, gr)
 					if kind != "" {
